@@ -6,7 +6,10 @@ import "testing"
 func TestCounts(t *testing.T) {
 	body := func(x *X) { x.Choose(2, true); x.Choose(3, true); x.Choose(2, true) }
 	seen := map[string]bool{}
-	st := Explore(Options{Bound: -1}, body, func(x *X) bool { seen[string(rune('0'+x.Trace[0].Chosen))+string(rune('0'+x.Trace[1].Chosen))+string(rune('0'+x.Trace[2].Chosen))] = true; return true })
+	st := Explore(Options{Bound: -1}, body, func(x *X) bool {
+		seen[string(rune('0'+x.Trace[0].Chosen))+string(rune('0'+x.Trace[1].Chosen))+string(rune('0'+x.Trace[2].Chosen))] = true
+		return true
+	})
 	if st.Executions != 12 || len(seen) != 12 {
 		t.Fatal(st, len(seen))
 	}
